@@ -141,7 +141,8 @@ def parse_graphic_sequence(
     if isinstance(sequence, str):
         items = [item.strip() or '0' for item in sequence.split(ansi_sep)]
     else:
-        items = sequence
+        # Work on a copy (the caller's list is not to be modified); an empty item means 0, as in the string form
+        items = [(item.strip() or '0') if isinstance(item, str) else item for item in sequence]
     # Attempt to make each value an integer
     for idx, value in enumerate(items):
         if isinstance(value, str):
